@@ -384,6 +384,13 @@ func kittyEncodings(r gen.R, thin int) []enc {
 					ch = ""
 				}
 				add(f.kitty, 0, 0, mods, ev, "", f.code, "u-functional", ch)
+				// the optional third field (associated text) on a functional
+				// key: text is text, whatever the key number (C09-q: the
+				// CSI 27;m;c~ special case must not swallow CSI 27;m;text u)
+				if mods < 8 {
+					add(f.kitty, 0, 0, mods, ev, "a", f.code, "u-functional-text", "")
+					add(f.kitty, 0, 0, mods, ev, "\u4e16b", f.code, "u-functional-text", "")
+				}
 			}
 		}
 	}
